@@ -226,6 +226,8 @@ struct Shared {
 	q_clock: Mutex<Option<Vec<(bool, bool)>>>,
 	/// by creation index: what the query sound on the listener's spatial track saw in the current callback
 	q_listener: Mutex<Vec<Option<bool>>>,
+	/// sounds playing ON a sub-track payload: (payload id of the track, dropped on a thread other than the caller's)
+	inner_drops: Mutex<Vec<(usize, bool)>>,
 }
 impl Shared {
 	fn log_drop(&self, pid: usize) {
@@ -251,6 +253,25 @@ impl Sound for ProbeSound {
 impl Drop for ProbeSound {
 	fn drop(&mut self) {
 		self.sh.log_drop(self.pid);
+	}
+}
+
+/// a sound playing on a sub-track under test: part of that track's payload, it has to be destroyed with it,
+/// on the caller's thread, and not before the track has been removed
+struct InnerSound {
+	owner: usize,
+	sh: Arc<Shared>,
+}
+impl Sound for InnerSound {
+	fn process(&mut self, _out: &mut [Frame], _dt: f64, _info: &Info) {}
+	fn finished(&self) -> bool {
+		false
+	}
+}
+impl Drop for InnerSound {
+	fn drop(&mut self) {
+		let other = std::thread::current().id() != self.sh.main;
+		lk(&self.sh.inner_drops).push((self.owner, other));
 	}
 }
 
@@ -545,6 +566,7 @@ fn new_shared() -> Arc<Shared> {
 		q_mod: Mutex::new(None),
 		q_clock: Mutex::new(None),
 		q_listener: Mutex::new(vec![]),
+		inner_drops: Mutex::new(vec![]),
 	})
 }
 
@@ -748,7 +770,13 @@ impl World {
 			Kind::SubTrack | Kind::SubTrackNested | Kind::SubTrackSpatial | Kind::SubTrackOfSpatial => {
 				let pid = sh.next_pid.fetch_add(1, Ordering::SeqCst);
 				match self.add_track_any(pid, false) {
-					Ok(h) => {
+					Ok(mut h) => {
+						// something playing on the new track (its own sound storage, not the one under test)
+						let inner = Boxed(Box::new(InnerSound { owner: pid, sh: sh.clone() }));
+						match &mut h {
+							AnyTrack::Plain(t) => t.play(inner).expect("inner sound"),
+							AnyTrack::Spatial(t) => t.play(inner).expect("inner sound"),
+						}
 						self.tracks.push((pid, Some(h)));
 						self.created.push(pid);
 						CreateRes::Created(None)
@@ -1154,6 +1182,7 @@ fn run_history_f(kind: Kind, cap: usize, ops: &[Op], flavour: Option<usize>) -> 
 		}
 	}
 	let mut dropped: HashSet<usize> = HashSet::new();
+	let mut inner_seen = 0usize;
 	let mut keys_seen: HashSet<(i128, i128)> = HashSet::new();
 	// per id (creation order): has resolved once / has stopped resolving after that
 	let mut resolved_once: Vec<bool> = vec![];
@@ -1369,6 +1398,23 @@ fn run_history_f(kind: Kind, cap: usize, ops: &[Op], flavour: Option<usize>) -> 
 			}
 			if !rf.may_be_dropped(*p) {
 				flag(i, format!("payload {p} was destroyed although it was neither removed nor rejected"));
+			}
+		}
+		if kind.is_sub_track() {
+			let inner: Vec<(usize, bool)> = lk(&w.sh.inner_drops)[inner_seen..].to_vec();
+			inner_seen += inner.len();
+			for (owner, other) in &inner {
+				if *other {
+					flag(i, format!("the sound playing on track payload {owner} was destroyed on the callback thread"));
+				}
+				if !new_drops.iter().any(|(p, _)| p == owner) {
+					flag(i, format!("the sound playing on track payload {owner} was destroyed, but not together with its track"));
+				}
+			}
+			for (p, _) in &new_drops {
+				if rf.res.iter().any(|r| r.pid == *p) && !inner.iter().any(|(o, _)| o == p) {
+					flag(i, format!("track payload {p} was destroyed without the sound that was playing on it"));
+				}
 			}
 		}
 	}
@@ -1853,6 +1899,7 @@ struct StressOut {
 	limit_len_below: u64,
 	callbacks: u64,
 	removed_reused: u64,
+	failed_plays: u64,
 }
 
 fn stress(kind: Kind, cap: usize, iters: usize, rng: &mut Rng) -> StressOut {
@@ -1871,19 +1918,7 @@ fn stress(kind: Kind, cap: usize, iters: usize, rng: &mut Rng) -> StressOut {
 		backend_settings: SSettings(slot.clone()),
 	})
 	.unwrap();
-	let sh = Arc::new(Shared {
-		main: std::thread::current().id(),
-		next_pid: AtomicUsize::new(0),
-		drops: Mutex::new(vec![]),
-		order: Mutex::new(vec![]),
-		keys: Mutex::new(vec![]),
-		recv: Mutex::new(vec![]),
-		mod_ids: Mutex::new(vec![]),
-		clock_ids: Mutex::new(vec![]),
-		q_mod: Mutex::new(None),
-		q_clock: Mutex::new(None),
-		q_listener: Mutex::new(vec![]),
-	});
+	let sh = new_shared();
 	let stop = Arc::new(AtomicBool::new(false));
 	let audio_panic: Arc<Mutex<Option<String>>> = Arc::new(Mutex::new(None));
 	let ncb = Arc::new(AtomicUsize::new(0));
@@ -1914,7 +1949,7 @@ fn stress(kind: Kind, cap: usize, iters: usize, rng: &mut Rng) -> StressOut {
 			}
 		})
 	};
-	let mut out = StressOut { fail: None, ok: 0, limit: 0, limit_len_below: 0, callbacks: 0, removed_reused: 0 };
+	let mut out = StressOut { fail: None, ok: 0, limit: 0, limit_len_below: 0, callbacks: 0, removed_reused: 0, failed_plays: 0 };
 	let name = format!("stress {} capacity {}", kind.name(), cap);
 	let mut alive: Vec<Arc<AtomicBool>> = vec![];
 	let mut all_flags: Vec<Arc<AtomicBool>> = vec![];
@@ -1953,7 +1988,28 @@ fn stress(kind: Kind, cap: usize, iters: usize, rng: &mut Rng) -> StressOut {
 		if out.fail.is_some() {
 			break;
 		}
-		if rng.below(5) < 3 {
+		if kind == Kind::SoundMain && rng.below(8) == 0 {
+			// a play that fails before anything is reserved, concurrently with the callbacks: no slot may be
+			// used up (seen by the occupancy bounds below and by the count at quiescence)
+			let how = it % 3;
+			let r = catch(|| match how {
+				0 => matches!(mgr.play(StreamingSoundData::from_decoder(BadDecoder)), Err(PlaySoundError::IntoSoundError(_))),
+				1 => matches!(mgr.play(FailingData(FailHow::Err)), Err(PlaySoundError::IntoSoundError(_))),
+				_ => {
+					let _ = mgr.play(FailingData(FailHow::Panic));
+					false
+				}
+			});
+			out.failed_plays += 1;
+			let ok = match r {
+				Outcome::Ok(b) => b,
+				Outcome::Panic(_) => how == 2 && last_panic().starts_with(PROBE_PANIC),
+				Outcome::Hang => false,
+			};
+			if !ok && alive.len() < cap {
+				out.fail = Some(format!("{name} step {it}: a play whose into_sound fails did not report that failure although only {} handles are alive", alive.len()));
+			}
+		} else if rng.below(5) < 3 {
 			let len_before = len_of(&mut mgr);
 			let unmarked = alive.len();
 			match create(&mut mgr) {
@@ -2131,19 +2187,7 @@ fn f27_replay(kind: Kind) -> F27Out {
 		backend_settings: SSettings(slot.clone()),
 	})
 	.unwrap();
-	let sh = Arc::new(Shared {
-		main: std::thread::current().id(),
-		next_pid: AtomicUsize::new(0),
-		drops: Mutex::new(vec![]),
-		order: Mutex::new(vec![]),
-		keys: Mutex::new(vec![]),
-		recv: Mutex::new(vec![]),
-		mod_ids: Mutex::new(vec![]),
-		clock_ids: Mutex::new(vec![]),
-		q_mod: Mutex::new(None),
-		q_clock: Mutex::new(None),
-		q_listener: Mutex::new(vec![]),
-	});
+	let sh = new_shared();
 	let create = |mgr: &mut kira::AudioManager<SBackend>| -> Outcome<Option<Arc<AtomicBool>>> {
 		let sh = sh.clone();
 		catch(move || match kind {
@@ -2441,7 +2485,7 @@ pub fn run(args: &Args) {
 	}
 	// (d) free-running two-thread stress
 	let iters = (if args.thorough { 40000 } else { 4000 }) * args.budget_mul as usize;
-	let (mut cb, mut ok, mut lim, mut race, mut reuse) = (0u64, 0u64, 0u64, 0u64, 0u64);
+	let (mut cb, mut ok, mut lim, mut race, mut reuse, mut failed_plays) = (0u64, 0u64, 0u64, 0u64, 0u64, 0u64);
 	for kind in [Kind::Modulator, Kind::SoundMain] {
 		for cap in [1usize, 2, 3, 8] {
 			for _rep in 0..2 {
@@ -2452,6 +2496,7 @@ pub fn run(args: &Args) {
 				lim += o.limit;
 				race += o.limit_len_below;
 				reuse += o.removed_reused;
+				failed_plays += o.failed_plays;
 				if let Some(what) = o.fail.clone() {
 					s.fail(format!("stress {} {} seed {}", kind.name(), cap, args.seed), what, None);
 				}
@@ -2459,7 +2504,7 @@ pub fn run(args: &Args) {
 		}
 	}
 	s.notes.push(format!(
-		"two-thread stress (real concurrency, monitors only): {ok} successful creates ({reuse} on a reused slot), {lim} limit errors ({race} of them although num_* read just before was below the capacity: window inside Controller::free), {cb} concurrent callbacks"
+		"two-thread stress (real concurrency, monitors only): {ok} successful creates ({reuse} on a reused slot), {failed_plays} plays whose into_sound failed, {lim} limit errors ({race} of them although num_* read just before was below the capacity: window inside Controller::free), {cb} concurrent callbacks"
 	));
 	s.notes.push(format!(
 		"failing creations in the histories: {}; of these {} were user code unwinding with the key already reserved (a panicking ModulatorBuilder::build, a send-track effect whose init panics): the unchanged code loses the slot for good (num_* counts it, capacity shrinks), exactly as the model's X_fail_late predicts (theorem reserve_then_fail_refuted); compared with the model, not raised as a violation",
